@@ -259,7 +259,8 @@ class Ctx:
                 res.append(None)
                 continue
             body = m.group(1)
-            res.append([int(x) for x in re.findall(r"(\d+)%N", body)] if "[]" not in body or "%N" in body else [])
+            # body is only the list literal (with or without %N suffixes, depending on open scopes)
+            res.append([int(x) for x in re.findall(r"(\d+)(?:%N)?", body)])
         return allok, res, logs
 
     # -- Go ----------------------------------------------------------------------------------
